@@ -147,7 +147,7 @@ namespace parmcb {
         }
 
         void add(U pos) {
-            assert(ones.empty() || pos >= *(ones.end()));
+            assert(ones.empty() || pos >= ones.back());
 
             ones.push_back(pos);
         }
